@@ -252,14 +252,15 @@ def spelling_guard_rule(ctx, rule):
 
 
 
-def text_from_cast_rule(ctx, rule):
+def text_from_cast_rule(ctx, rule, scope=None, min_fns=20):
     F, rep = ctx.F, ctx.rep
+    scope = scope or (lambda fn: fn.file.startswith("src/linter/") or fn.file == "src/analysis/tools.rs")
     from ..flow import Labels
     SINKS = ("to_string", "new_display", "new_debug", "new_lower_exp", "new_upper_exp", "push_str", "write_str", "format", "push", "to_digit", "from_digit")
     n_fns = 0
     n_casts = 0
     for fn in F.all_fns(tests=False):
-        if fn.kind == "closure" or not (fn.file.startswith("src/linter/") or fn.file == "src/analysis/tools.rs") or fn.is_derived() or not fn.mir:
+        if fn.kind == "closure" or not scope(fn) or fn.is_derived() or not fn.mir:
             continue
         n_fns += 1
         seeds = {}
@@ -287,4 +288,4 @@ def text_from_cast_rule(ctx, rule):
             rep.ob(rule, "float-to-int-into-text::%s#%d" % (fn.path, sorted(where).index(lbl)), ok,
                    "" if ok else "%s converts a floating-point value to an integer and turns the result into text (%s, line %s): beyond the integer type's range the conversion saturates, so the text no longer spells the value" % (
                        fn.path, hit[1]["callee"].get("def"), hit[1]["line"]), where[lbl], how="the converted value never becomes text")
-    rep.ob(rule, "scanned", n_fns >= 20, "" if n_fns >= 20 else "only %d linter functions found" % n_fns, None, how="%d functions of the linter and the folders scanned, %d float-to-integer casts" % (n_fns, n_casts))
+    rep.ob(rule, "scanned", n_fns >= min_fns, "" if n_fns >= min_fns else "only %d functions found" % n_fns, None, how="%d functions scanned, %d float-to-integer casts" % (n_fns, n_casts))
